@@ -3,6 +3,9 @@ import ZChain.Model.AlgWorld
 import ZChain.Model.Sig
 /-! Line driver for C47 (client signatures): the crypto world's BLS keys (`key`, `ksign`, `kverify`, `sigadd`, …) plus
 `client <key>` | `clientcheck <key> <key'>` (id of key' against the public key of key) — client ids, labelled `I<n>`;
+`cnew <c>` | `csetpk <c> <key>` | `csetscheme <c> <key>` | `cdecode <c> <key>` | `cstatus <c>` | `cverify <c> <sigidx> <m>` —
+ONE client object whose key is changed (`<key>` a BLS key `k…`/`n…` or an ed25519 key `e…`); `kdirect <key> <sigidx> <m>` — the
+library's own verification of a signature register over the message bytes;
 `ekey <name> <seed>` | `esign <name> <m>` | `etamper <idx>` | `everify <name> <idx> <m>` | `eclient <name>` — ed25519
 (the ideal scheme of `Model/Sig`; public keys `P<n>`, signatures `E<n>`). -/
 namespace ZChain.Drv.C47
@@ -17,6 +20,7 @@ structure St where
   epubs : List Nat := []
   esigs : Array EdSig := #[]
   elabels : List EdSig := []
+  clients : List (String × Option (Client (Sum Fr Nat) (Sum Fr Nat))) := []
 deriving Inhabited
 
 def E : EdScheme Nat Nat String EdSig := ideal Nat String
@@ -33,8 +37,51 @@ def pushE (s : St) (x : EdSig) : St × String :=
   let (l, i) := labelOf s.elabels x
   ({ s with esigs := s.esigs.push x, elabels := l }, s!"esig {idx} E{i}")
 
+/-- the public key a key name stands for: an ed25519 key `e…` or a BLS key. -/
+def anyKey? (s : St) (k : String) : Option (Sum Fr Nat) :=
+  match ekey? s k with
+  | some seed => some (Sum.inr (E.pub seed))
+  | none => (key? s.w k).map (fun sk => Sum.inl (pubKey sk))
+
+def client? (s : St) (c : String) : Option (Option (Client (Sum Fr Nat) (Sum Fr Nat))) := (s.clients.find? (·.1 == c)).map (·.2)
+
+def showClient (s : St) (c : Option (Client (Sum Fr Nat) (Sum Fr Nat))) : St × String :=
+  match c with
+  | none => (s, "nokey")
+  | some c =>
+    let (l, i) := labelOf s.ids c.id
+    ({ s with ids := l }, s!"I{i} {if c.validate (fun pk => pk) then "idok" else "idBAD"}")
+
+def setClient (s : St) (n : String) (c : Option (Client (Sum Fr Nat) (Sum Fr Nat))) : St :=
+  { s with clients := (s.clients.filter (·.1 != n)) ++ [(n, c)] }
+
 def step (s : St) (ws : List String) : St × String :=
   match ws with
+  | ["cnew", c] => (setClient s c none, "ok")
+  | [op, c, k] =>
+    if op == "csetpk" || op == "csetscheme" || op == "cdecode" then
+      match client? s c, anyKey? s k with
+      | some old, some pk =>
+        let c' := match old with
+          | some o => Client.setPublicKey (fun (pk : Sum Fr Nat) => pk) o pk
+          | none => Client.ofPublicKey (fun (pk : Sum Fr Nat) => pk) pk
+        showClient (setClient s c (some c')) (some c')
+      | _, _ => (s, "bad-op")
+    else stepRest s ws
+  | ["cstatus", c] => match client? s c with
+    | some cl => showClient s cl
+    | none => (s, "bad-op")
+  | _ => stepRest s ws
+where stepRest (s : St) (ws : List String) : St × String :=
+  match ws with
+  | ["cverify", c, si, m] => match client? s c, si.toNat?.bind (sig? s.w), msg? s.w m with
+    | some (some cl), some σ, some h => match cl.publicKey with
+      | Sum.inl pk => (s, showBool (verifyLib pk h σ))
+      | Sum.inr _ => (s, "false")
+    | _, _, _ => (s, "bad-op")
+  | ["kdirect", k, si, m] => match key? s.w k, si.toNat?.bind (sig? s.w), msg? s.w m with
+    | some sk, some σ, some h => (s, showBool (verifyLib (pubKey sk) h σ))
+    | _, _, _ => (s, "bad-op")
   | ["client", k] => match key? s.w k with
     | some sk =>
       let c := Client.ofPublicKey (fun (pk : Sum Fr Nat) => pk) (Sum.inl (pubKey sk))
